@@ -253,6 +253,38 @@ Proof.
   - intros (-> & H & ->). apply Qeq_bool_iff in H. rewrite H. reflexivity.
 Qed.
 
+(* the reflected forms: a plain number on the left of the operator *)
+Lemma arith_r_ok_inv o b a r :
+  arith_r o b a = Ok r -> r = mkDur (dk a) (to_ticks (q_apply o b (qval a))).
+Proof.
+  unfold arith_r. destruct o; try (intros H; inversion H; reflexivity).
+  destruct (Qeq_bool (qval a) 0); intros H; inversion H; reflexivity.
+Qed.
+Theorem arith_r_kind : forall o b a r, arith_r o b a = Ok r -> dk r = dk a.
+Proof. intros o b a r H. apply arith_r_ok_inv in H. subst; reflexivity. Qed.
+Theorem arith_r_result_near : forall o b a r,
+  arith_r o b a = Ok r -> (Qabs (qval r - q_apply o b (qval a)) <= 1 # 20000000000)%Q.
+Proof.
+  intros o b a r H. apply arith_r_ok_inv in H. subst r.
+  unfold qval at 1. simpl dt. apply to_ticks_near.
+Qed.
+Theorem arith_r_err_iff : forall o b a k,
+  arith_r o b a = Err k <-> o = ODiv /\ (qval a == 0)%Q /\ k = EZeroDivision.
+Proof.
+  intros o b a k. unfold arith_r. split.
+  - destruct o; try discriminate. destruct (Qeq_bool (qval a) 0) eqn:E; [|discriminate].
+    intros H; inversion H. apply Qeq_bool_iff in E. auto.
+  - intros (-> & H & ->). apply Qeq_bool_iff in H. rewrite H. reflexivity.
+Qed.
+(* b + a is a + b: the sum of two durations does not depend on which side the duration object is *)
+Theorem arith_r_add_is_arith_add : forall a b, arith_r OAdd (qval b) a = arith OAdd a (qval b).
+Proof.
+  intros a b. rewrite arith_add. unfold arith_r, q_apply.
+  assert (E : (qval b + qval a == qval (mkDur (dk a) (dt a + dt b)))%Q).
+  { rewrite Qplus_comm. apply qval_add. }
+  rewrite E, to_ticks_qval. reflexivity.
+Qed.
+
 (* ------------------------------------------------------------------ *)
 (* 5. the state machine                                                *)
 (* ------------------------------------------------------------------ *)
